@@ -408,7 +408,7 @@ def _run_c02(tier, seed, jobs):
     items, stats = _expr_items(tier, seed, jobs)
     order = np.random.RandomState(seed).permutation(len(items))
     items = [items[i] for i in order]
-    expr_limit = 8000 if quick else 60000
+    expr_limit = 8000 if quick else 30000
     contexts = []
     c03_contexts = ["lazy", "normalize", "memoize"]
     for src, meta in items[:expr_limit]:
@@ -420,7 +420,7 @@ def _run_c02(tier, seed, jobs):
     c04 = list(TK.c04_cases(tier, seed))
     c05 = list(TK.c05_cases(tier, seed))
     rng = np.random.RandomState(seed + 1)
-    c04_limit = 4000 if quick else 40000
+    c04_limit = 4000 if quick else 20000
     if len(c04) > c04_limit:
         c04 = [c04[i] for i in sorted(rng.choice(len(c04), c04_limit, replace=False))]
     for c in c04:
